@@ -1,5 +1,228 @@
 import OasisModel.Proto
-/- C15 share pool arithmetic: driver stub (not built yet). -/
+import OasisModel.Staking.SharePool
+/-
+Driver for the share-pool model (mode `share`, executable `om_share`), property C15.
+Every line carries the operation, its inputs and what the Go implementation returned; the model
+answers `ok`, `DIVERGE <detail>` (model and implementation differ) or `SPEC <detail>` (the
+implementation's outcome violates the executable C15 clause, checked independently of the model).
+
+  dep B TS shareDst stakeSrc amount  ok B' TS' shareDst' stakeSrc' shares | err <kind>   SharePool.Deposit
+  wd  B TS stakeDst shareSrc shares  ok B' TS' stakeDst' shareSrc'        | err <kind>   SharePool.Withdraw
+  sfs B TS amount q                                                                     SharePool.StakeForShares
+  sp  dst B TS amount total dst' B' TS'                                                 slashPool
+  se  Ba TSa Bd TSd common amount Ba' Bd' common' slashed debondingSlashed              SlashEscrow arithmetic
+  com rate total ok com remaining | err <kind>                                           computeCommission
+  hnew B TS mine rest                         start a history (one delegator against the rest)
+  hdep own a  ok B' TS' shares vBefore vAfter | err <kind>
+  hwd  own s  ok B' TS' paid   vBefore vAfter | err <kind>
+  hrew r B' vBefore vAfter
+  hsl  k B'
+  hend paidIn paidOut value value0 envGain    totals tracked on the implementation side
+-/
 namespace OasisModel.Staking.ShareDriver
-def main : IO Unit := IO.eprintln "mode not implemented"
+open OasisModel OasisModel.Proto OasisModel.Staking OasisModel.Staking.SharePool
+
+structure St where
+  f : Fair := { pool := { balance := 0, totalShares := 0 }, mine := 0, rest := 0, paidIn := 0, paidOut := 0, envGain := 0 }
+  value0 : Nat := 0
+  dead : Bool := true
+
+def nats (ws : List String) : Option (List Nat) := ws.mapM String.toNat?
+
+def errKind (e : QErr) : String := e.toString
+
+def parseErr (s : String) : Option QErr :=
+  if s == "invalid-quantity" then some .invalidQuantity
+  else if s == "insufficient-balance" then some .insufficientBalance
+  else if s == "invalid-account" then some .invalidAccount
+  else if s == "invalid-argument" then some .invalidArgument
+  else none
+
+def eqExcept {α : Type} [BEq α] : Except QErr α → Except QErr α → Bool
+  | .ok a, .ok b => a == b
+  | .error a, .error b => a == b
+  | _, _ => false
+
+def showDep : Except QErr DepositRes → String
+  | .error e => s!"err {errKind e}"
+  | .ok r => s!"ok {r.pool.balance} {r.pool.totalShares} {r.shareDst} {r.stakeSrc} {r.shares}"
+
+def showWd : Except QErr WithdrawRes → String
+  | .error e => s!"err {errKind e}"
+  | .ok r => s!"ok {r.pool.balance} {r.pool.totalShares} {r.stakeDst} {r.shareSrc}"
+
+/-- Parse the implementation's outcome of a deposit. -/
+def implDep (ws : List String) : Option (Except QErr DepositRes) :=
+  match ws with
+  | ["err", k] => (parseErr k).map .error
+  | "ok" :: rest => match nats rest with
+    | some [b, t, sd, ss, sh] => some (.ok { pool := { balance := b, totalShares := t }, shareDst := sd, stakeSrc := ss, shares := sh })
+    | _ => none
+  | _ => none
+
+def implWd (ws : List String) : Option (Except QErr WithdrawRes) :=
+  match ws with
+  | ["err", k] => (parseErr k).map .error
+  | "ok" :: rest => match nats rest with
+    | some [b, t, sd, ss] => some (.ok { pool := { balance := b, totalShares := t }, stakeDst := sd, shareSrc := ss })
+    | _ => none
+  | _ => none
+
+def stateless (ws : List String) : Option String :=
+  match ws with
+  | "dep" :: b :: t :: sd :: ss :: a :: res =>
+    match nats [b, t, sd, ss, a], implDep res with
+    | some [b, t, sd, ss, a], some out =>
+      let p : SharePool := { balance := b, totalShares := t }
+      let m := deposit p sd ss a
+      if !(specDeposit p sd ss a out) then some s!"SPEC deposit clause violated by implementation outcome {showDep out}"
+      else if !(eqExcept m out) then some s!"DIVERGE deposit model={showDep m} impl={showDep out}"
+      else some "ok"
+    | _, _ => none
+  | "wd" :: b :: t :: sd :: ss :: s :: res =>
+    match nats [b, t, sd, ss, s], implWd res with
+    | some [b, t, sd, ss, s], some out =>
+      let p : SharePool := { balance := b, totalShares := t }
+      let m := withdraw p sd ss s
+      if !(specWithdraw p sd ss s out) then some s!"SPEC withdraw clause violated by implementation outcome {showWd out}"
+      else if !(eqExcept m out) then some s!"DIVERGE withdraw model={showWd m} impl={showWd out}"
+      else some "ok"
+    | _, _ => none
+  | ["sfs", b, t, a, q] =>
+    match nats [b, t, a, q] with
+    | some [b, t, a, q] =>
+      let p : SharePool := { balance := b, totalShares := t }
+      if decide (q * t ≤ a * b) == false then some s!"SPEC stakeForShares pays more than pro-rata: {q}"
+      else if stakeForShares p a != q then some s!"DIVERGE stakeForShares model={stakeForShares p a} impl={q}"
+      else some "ok"
+    | _ => none
+  | ["sp", dst, b, t, amount, total, dst', b', t'] =>
+    match nats [dst, b, t, amount, total, dst', b', t'] with
+    | some [dst, b, t, amount, total, dst', b', t'] =>
+      let m := slashPool dst { balance := b, totalShares := t } amount total
+      if dst' + b' != dst + b || t' != t then some s!"SPEC slashPool does not conserve: dst'={dst'} B'={b'} TS'={t'}"
+      else if m != (dst', { balance := b', totalShares := t' }) then
+        some s!"DIVERGE slashPool model=({m.1},{m.2.balance},{m.2.totalShares}) impl=({dst'},{b'},{t'})"
+      else some "ok"
+    | _ => none
+  | ["se", ba, ta, bd, td, common, amount, ba', bd', common', slashed, ds] =>
+    match nats [ba, ta, bd, td, common, amount, ba', bd', common', slashed, ds] with
+    | some [ba, ta, bd, td, common, amount, ba', bd', common', slashed, ds] =>
+      let a : SharePool := { balance := ba, totalShares := ta }
+      let d : SharePool := { balance := bd, totalShares := td }
+      let out : SlashRes := { active := { balance := ba', totalShares := ta }, debonding := { balance := bd', totalShares := td },
+                              common := common', slashed := slashed, debondingSlashed := ds }
+      let m := slashEscrow a d common amount
+      if !(specSlash a d common amount out) then some "SPEC slash clause violated by implementation outcome"
+      else if m != out then some s!"DIVERGE slashEscrow model=({m.active.balance},{m.debonding.balance},{m.common},{m.slashed},{m.debondingSlashed})"
+      else some "ok"
+    | _ => none
+  | "com" :: rate :: total :: res =>
+    match nats [rate, total] with
+    | some [rate, total] =>
+      let m := computeCommission rate total
+      let shown := match m with
+        | .error e => ["err", errKind e]
+        | .ok (c, r) => ["ok", toString c, toString r]
+      if shown != res then some s!"DIVERGE computeCommission model={" ".intercalate shown} impl={" ".intercalate res}"
+      else match m with
+        | .ok (c, r) => if c + r != total then some "SPEC commission + remaining ≠ total" else some "ok"
+        | _ => some "ok"
+    | _ => none
+  | _ => none
+
+def parseBool (s : String) : Option Bool :=
+  if s == "1" then some true else if s == "0" then some false else none
+
+def history (st : St) (ws : List String) : Option (St × String) :=
+  let fail (msg : String) : Option (St × String) := some ({ st with dead := true }, msg)
+  let f := st.f
+  match ws with
+  | ["hnew", b, t, mine, rest] =>
+    match nats [b, t, mine, rest] with
+    | some [b, t, mine, rest] =>
+      let f : Fair := { pool := { balance := b, totalShares := t }, mine := mine, rest := rest, paidIn := 0, paidOut := 0, envGain := 0 }
+      some ({ f := f, value0 := f.value, dead := false }, "ok")
+    | _ => none
+  | "hdep" :: own :: a :: res =>
+    if st.dead then some (st, "skip") else
+    match parseBool own, a.toNat? with
+    | some own, some a =>
+      let f' := f.step (.deposit own a)
+      let holder := if own then f.mine else f.rest
+      let m := deposit f.pool holder a a
+      match res, m with
+      | ["err", k], .error e => if k == errKind e then some ({ st with f := f' }, "ok") else fail s!"DIVERGE history deposit error model={errKind e} impl={k}"
+      | ["ok", b', t', sh, vb, va], .ok r =>
+        match nats [b', t', sh, vb, va] with
+        | some [b', t', sh, vb, va] =>
+          if own && decide (va > vb + a) then fail s!"SPEC own deposit of {a} raised redeemable value from {vb} to {va}"
+          else if !own && decide (va < vb) then fail s!"SPEC deposit by another account lowered redeemable value from {vb} to {va}"
+          else if r.pool != { balance := b', totalShares := t' } || r.shares != sh || vb != f.value || va != f'.value then
+            fail s!"DIVERGE history deposit model=({r.pool.balance},{r.pool.totalShares},{r.shares},{f.value},{f'.value}) impl=({b'},{t'},{sh},{vb},{va})"
+          else some ({ st with f := f' }, "ok")
+        | _ => none
+      | _, _ => fail s!"DIVERGE history deposit outcome model={showDep m} impl={" ".intercalate res}"
+    | _, _ => none
+  | "hwd" :: own :: s :: res =>
+    if st.dead then some (st, "skip") else
+    match parseBool own, s.toNat? with
+    | some own, some s =>
+      let f' := f.step (.withdraw own s)
+      let holder := if own then f.mine else f.rest
+      let m := withdraw f.pool 0 holder s
+      match res, m with
+      | ["err", k], .error e => if k == errKind e then some ({ st with f := f' }, "ok") else fail s!"DIVERGE history withdraw error model={errKind e} impl={k}"
+      | ["ok", b', t', paid, vb, va], .ok r =>
+        match nats [b', t', paid, vb, va] with
+        | some [b', t', paid, vb, va] =>
+          if own && decide (va + paid > vb) then fail s!"SPEC own redemption: paid {paid} + remaining value {va} exceeds previous value {vb}"
+          else if !own && decide (va < vb) then fail s!"SPEC redemption by another account lowered redeemable value from {vb} to {va}"
+          else if r.pool != { balance := b', totalShares := t' } || r.stakeDst != paid || vb != f.value || va != f'.value then
+            fail s!"DIVERGE history withdraw model=({r.pool.balance},{r.pool.totalShares},{r.stakeDst},{f.value},{f'.value}) impl=({b'},{t'},{paid},{vb},{va})"
+          else some ({ st with f := f' }, "ok")
+        | _ => none
+      | _, _ => fail s!"DIVERGE history withdraw outcome model={showWd m} impl={" ".intercalate res}"
+    | _, _ => none
+  | ["hrew", r, b', vb, va] =>
+    if st.dead then some (st, "skip") else
+    match nats [r, b', vb, va] with
+    | some [r, b', vb, va] =>
+      let f' := f.step (.reward r)
+      if decide (va < vb) then fail s!"SPEC reward lowered redeemable value from {vb} to {va}"
+      else if f'.pool.balance != b' || vb != f.value || va != f'.value then
+        fail s!"DIVERGE history reward model=({f'.pool.balance},{f.value},{f'.value}) impl=({b'},{vb},{va})"
+      else some ({ st with f := f' }, "ok")
+    | _ => none
+  | ["hsl", k, b'] =>
+    if st.dead then some (st, "skip") else
+    match nats [k, b'] with
+    | some [k, b'] =>
+      let f' := f.step (.slash k)
+      if f'.pool.balance != b' then fail s!"DIVERGE history slash model={f'.pool.balance} impl={b'}"
+      else some ({ st with f := f' }, "ok")
+    | _ => none
+  | ["hend", pin, pout, v, v0, g] =>
+    if st.dead then some (st, "skip") else
+    match nats [pin, pout, v, v0, g] with
+    | some [pin, pout, v, v0, g] =>
+      if !(Fair.specHistory pin pout v v0 g) then
+        fail s!"SPEC history: redeemed {pout} + redeemable {v} exceeds paid-in {pin} + initial {v0} + gains from others/rewards {g}"
+      else if [pin, pout, v, v0, g] != [f.paidIn, f.paidOut, f.value, st.value0, f.envGain] then
+        fail s!"DIVERGE history totals model=({f.paidIn},{f.paidOut},{f.value},{st.value0},{f.envGain}) impl=({pin},{pout},{v},{v0},{g})"
+      else some (st, "ok")
+    | _ => none
+  | _ => none
+
+def step (st : St) (line : String) : St × String :=
+  let ws := words line
+  if ws.isEmpty then (st, "ok") else
+  match stateless ws with
+  | some a => (st, a)
+  | none => match history st ws with
+    | some r => r
+    | none => (st, "DIVERGE bad-op " ++ line.trimAscii.toString)
+
+def main : IO Unit := loop step {}
+
 end OasisModel.Staking.ShareDriver
